@@ -27,6 +27,7 @@ func main() {
 	}
 	start := time.Now()
 	sum := newSummary(*prop, *tier, *seed)
+	activeSum = sum
 	_ = replay
 	gen, ok := generators[*prop]
 	if !ok {
